@@ -1403,6 +1403,41 @@ def rule_last_window(ctx, repo):
     loc = ctx.loc(cls.module, fn)
     check_no_stale_cache(ctx, repo, "R3", "_get_last_window:no-stale-cache", cls, fn)
     A = Lin.sym("a")  # observations stored after the cutoff (update() with old data / detached cutoff moves the cutoff inside the series)
+    # history shorter than the window (cutoff moved back near the start of the stored series): the window is what was observed
+    # up to the cutoff -- fewer than w values, and never a value after the cutoff
+    tag = "_get_last_window[short-history]"
+    it = make_interp(repo, Rec(), False)
+    selfv = SelfV(cls, {"_y": Ser("y", N, T + A), "_X": K(None), "_cutoff": T, "window_length_": W})
+    f = base_facts(False)
+    f.add_cmp(A, ">=", 0, "the cutoff is a stored time point, possibly not the last one")
+    f.add_cmp(N - A, ">=", 1, "the cutoff is a stored time point")
+    f.add_cmp(W, ">=", N - A + 1, "fewer than w observations up to the cutoff")
+    traces, _ = it.run_function(Frame(cls.module, fn, cls, cls), {"self": selfv}, State(facts=f))
+    rets = [o[1] for s, o in traces if o[0] == "return"]
+    if len(rets) == 1 and isinstance(rets[0], Tup) and len(rets[0].items) == 2 and isinstance(rets[0].items[0], Nd) and rets[0].items[0].ndim == 1:
+        yw = rets[0].items[0]
+        envs = [Env({"n": n_, "w": w_, "T": 40, "a": a_}, {"fh": [1]}) for n_ in (4, 6) for a_ in (0, 2) for w_ in (3, 5, 7)]
+        envs = feasible(envs, f)
+        proved = Q(f).eq(yw.shape[0], N - A) is True
+        wit = None
+        for env in ([] if proved else envs):
+            qc = Q(env=env)
+            try:
+                cnt = 0
+                while cnt < 16 and yw.cell([Lin.c(cnt)], qc) not in (OOB, None):
+                    cnt += 1
+                if cnt != env.eval(N - A):
+                    wit = dict(env.describe(), window_values=cnt, observed_up_to_cutoff=str(env.eval(N - A)))
+                    break
+            except Uneval:
+                continue
+        Ob(ctx, "R3", tag + ":length", loc).settle(
+            proved, wit, "with fewer than w observations up to the cutoff the window holds exactly those n - a observations",
+            "with fewer than w observations up to the cutoff the window is filled up with values from after the cutoff")
+        check_cells(ctx, "R3", tag + ":y", loc, yw, [("c", ZERO, N - A)], lambda cc, q: y_src(q.ev(cc[0])), f, envs,
+                    "the window holds the observations up to the cutoff", "last window (short history)")
+    else:
+        ctx.undecided("R3", tag, "unexpected return structure %r" % (rets,), loc)
     for with_X in (False, True):
         tag = "_get_last_window[X=%s]" % ("given" if with_X else "None")
         rec = Rec()
@@ -1674,57 +1709,57 @@ def rule_dispatch(ctx, repo):
     mod = repo.module(RED)
     fn = repo.func(RED, "_get_forecaster")
     loc = ctx.loc(mod, fn)
-    rets = astq.returns(fn)
-    classes = []
-    table = None
-    if len(rets) == 1 and isinstance(rets[0].value, ast.Subscript) and isinstance(rets[0].value.value, ast.Subscript):
-        outer = rets[0].value
-        inner = outer.value
-        k_outer, k_inner = dotted(outer.slice), dotted(inner.slice)
-        params = astq.param_names(fn)
-        base = inner.value
-        vals = astq.assigned_values(fn, base.id) if isinstance(base, ast.Name) else ([base] if isinstance(base, ast.Dict) else [])
-        if len(vals) == 1 and isinstance(vals[0], ast.Dict) and len(params) == 2 and {k_outer, k_inner} == set(params) \
-                and not astq.assigned_in(fn, params[0]) and not astq.assigned_in(fn, params[1]):
-            table = {}
-            for k1, v1 in zip(vals[0].keys, vals[0].values):
-                if not (isinstance(k1, ast.Constant) and isinstance(v1, ast.Dict)):
-                    table = None
-                    break
-                for k2, v2 in zip(v1.keys, v1.values):
-                    if not isinstance(k2, ast.Constant):
-                        table = None
-                        break
-                    table[(k1.value, k2.value)] = v2
-                if table is None:
-                    break
-            first_key_param, second_key_param = k_inner, k_outer
-    if table is None:
-        ctx.undecided("R5", "_get_forecaster:registry", "registry is not a literal two-level dict indexed by the two parameters", loc)
-        return []
-    # which parameter indexes which level
-    lvl1 = {a for a, b in table}
-    lvl2 = {b for a, b in table}
-    for (a, b), node in sorted(table.items()):
-        sym = repo.resolve_expr(mod, node)
-        c = "_get_forecaster:registry[%s][%s]" % (a, b)
-        if sym is None or sym.kind != "class":
-            ctx.undecided("R5", c, "entry does not resolve to a class", ctx.loc(mod, node))
+    # the universe of (scitype, strategy) pairs is what the concrete reducer classes declare; the lookup is *interpreted* for
+    # every pair (nested dicts, tuple-keyed tables, module-level tables, if-chains all come out the same)
+    base_cls = repo.cls(RED + ":_Reducer")
+    declared = {}
+    for k_ in repo.subclasses(base_cls):
+        if k_.module is not mod or "_estimator_scitype" not in k_.class_attrs:
             continue
-        cls = sym.target
-        classes.append(cls)
-        scitype_key, strategy_key = (a, b) if first_key_param == "scitype" else (b, a)
-        got_s, got_t = scitype_of(repo, cls), strategy_of(repo, cls)
-        ctx.check(got_s == scitype_key and got_t == strategy_key, "R5", c,
-                  "%s has _estimator_scitype=%r, strategy=%r" % (cls.name, got_s, got_t),
-                  "registry maps (%s, %s) to %s whose class attributes are _estimator_scitype=%r, strategy=%r"
-                  % (scitype_key, strategy_key, cls.name, got_s, got_t), ctx.loc(mod, node),
-                  witness={"key": [scitype_key, strategy_key], "class": cls.name})
-    scitypes = lvl1 if first_key_param == "scitype" else lvl2
-    strategies = lvl2 if first_key_param == "scitype" else lvl1
-    full = all((a, b) in table for a in lvl1 for b in lvl2)
-    ctx.check(full, "R5", "_get_forecaster:registry-complete", "every (scitype, strategy) pair has an entry",
-              "registry is not a full product of its keys", loc)
+        a_, b_ = scitype_of(repo, k_), strategy_of(repo, k_)
+        if a_ is None or b_ is None:
+            continue
+        declared.setdefault((a_, b_), []).append(k_)
+    classes = []
+    scitypes = {a_ for a_, b_ in declared}
+    strategies = {b_ for a_, b_ in declared}
+    if not declared:
+        ctx.undecided("R5", "_get_forecaster:registry", "no concrete reducer class declares _estimator_scitype / strategy", loc)
+        return []
+    pnames = astq.param_names(fn)
+    for a_ in sorted(scitypes):
+        for b_ in sorted(strategies):
+            c = "_get_forecaster:registry[%s][%s]" % (a_, b_)
+            want = declared.get((a_, b_), [])
+            if len(want) != 1:
+                ctx.check(False if not want else None, "R5", c, "", "%d reducer classes declare (%s, %s)" % (len(want), a_, b_), loc)
+                continue
+            it_ = AInterp(repo, scenario={})
+            try:
+                tr, _ = it_.run_function(Frame(mod, fn), {"scitype": K(a_), "strategy": K(b_)} if set(pnames) >= {"scitype", "strategy"} else
+                                         dict(zip(pnames, [K(a_), K(b_)])), State())
+            except AnalysisError as e_:
+                ctx.undecided("R5", c, str(e_), loc)
+                continue
+            rets_ = [o[1] for s_, o in tr if o[0] == "return"]
+            other = [o for s_, o in tr if o[0] != "return"]
+            got = None
+            if len(rets_) == 1 and not other and isinstance(rets_[0], Opq) and rets_[0].tag.startswith("global:"):
+                d_ = rets_[0].tag[len("global:"):]
+                got = [k2 for k2 in repo.classes.values() if (k2.module.name + "." + k2.name) == d_]
+                got = got[0] if got else None
+            if got is None:
+                ctx.check(False if (other and not rets_ and all(o[0] == "raise" for o in other)) else None, "R5", c, "",
+                          "the lookup for (%s, %s) %s" % (a_, b_, "fails (no entry)" if other and not rets_ else "returns %r" % (rets_,)), loc)
+                continue
+            classes.append(want[0])
+            ctx.check(got is want[0], "R5", c, "%s has _estimator_scitype=%r, strategy=%r" % (got.name, a_, b_),
+                      "the lookup maps (%s, %s) to %s whose class attributes are _estimator_scitype=%r, strategy=%r"
+                      % (a_, b_, got.name, scitype_of(repo, got), strategy_of(repo, got)), loc,
+                      witness={"key": [a_, b_], "class": got.name})
+    full = all((a_, b_) in declared for a_ in scitypes for b_ in strategies)
+    ctx.check(full, "R5", "_get_forecaster:registry-complete", "every (scitype, strategy) pair has a reducer class",
+              "the declared (scitype, strategy) pairs are not a full product", loc)
     # validators and inference, decided by interpreting them on every candidate value (no syntactic shape is assumed)
     def run_on(fname, value, hooks=None):
         f = repo.func(RED, fname)
